@@ -194,7 +194,7 @@ escape(struct scanner *s)
 }
 
 static enum tokenkind
-charconst(struct scanner *s)
+charconst(struct scanner *s, struct location *loc)
 {
 	s->usebuf = true;
 	nextchar(s);
@@ -207,7 +207,8 @@ charconst(struct scanner *s)
 			nextchar(s);
 			return TCHARCONST;
 		case '\n':
-			error(&s->loc, "newline in character constant");
+			/* the newline itself is counted to the next line: name the constant */
+			error(loc, "newline in character constant");
 		case EOF:
 			error(&s->loc, "EOF in character constant");
 		case '\0':
@@ -220,7 +221,7 @@ charconst(struct scanner *s)
 }
 
 static int
-stringlit(struct scanner *s)
+stringlit(struct scanner *s, struct location *loc)
 {
 	s->usebuf = true;
 	nextchar(s);
@@ -233,7 +234,7 @@ stringlit(struct scanner *s)
 			nextchar(s);
 			return TSTRINGLIT;
 		case '\n':
-			error(&s->loc, "newline in string literal");
+			error(loc, "newline in string literal");
 		case EOF:
 			error(&s->loc, "EOF in string literal");
 		case '\0':
@@ -291,7 +292,7 @@ again:
 	case '!':
 		return op2(s, TLNOT, TNEQ);
 	case '"':
-		return stringlit(s);
+		return stringlit(s, loc);
 	case '#':
 		nextchar(s);
 		if (s->chr != '#')
@@ -303,7 +304,7 @@ again:
 	case '&':
 		return op3(s, TBAND, TBANDASSIGN, TLAND);
 	case '\'':
-		return charconst(s);
+		return charconst(s, loc);
 	case '*':
 		return op2(s, TMUL, TMULASSIGN);
 	case '+':
@@ -394,8 +395,8 @@ again:
 		if (s->buf.str[0] == 'u' && s->chr == '8')
 			nextchar(s);
 		switch (s->chr) {
-		case '\'': return charconst(s);
-		case '"': return stringlit(s);
+		case '\'': return charconst(s, loc);
+		case '"': return stringlit(s, loc);
 		}
 		return ident(s);
 	case EOF:
